@@ -5,7 +5,6 @@
 
 use super::Backend;
 use crate::fixtures::string_utils::parameter_has_annotation;
-use std::collections::HashMap;
 use tower_lsp_server::jsonrpc::Result;
 use tower_lsp_server::ls_types::*;
 use tracing::info;
@@ -51,23 +50,6 @@ impl Backend {
             .map(|c| c.lines().collect())
             .unwrap_or_default();
 
-        // Pre-compute a map of fixture name -> definition for O(1) lookup.
-        // This avoids calling find_closest_definition for each usage.
-        let available = self.fixture_db.get_available_fixtures(&file_path);
-        let fixture_map: HashMap<&str, &str> = available
-            .iter()
-            .filter_map(|def| {
-                def.return_type
-                    .as_ref()
-                    .map(|rt| (def.name.as_str(), rt.as_str()))
-            })
-            .collect();
-
-        // Early return if no fixtures have return types
-        if fixture_map.is_empty() {
-            return Ok(Some(Vec::new()));
-        }
-
         // Convert LSP range to internal line numbers (1-based)
         let start_line = Self::lsp_line_to_internal(range.start.line);
         let end_line = Self::lsp_line_to_internal(range.end.line);
@@ -80,8 +62,14 @@ impl Backend {
                 continue;
             }
 
-            // Look up return type from pre-computed map
-            if let Some(&return_type) = fixture_map.get(usage.name.as_str()) {
+            // The return type of the definition this usage resolves to, as go-to-definition
+            // resolves it (a parameter named like its own fixture denotes the overridden one)
+            let definition = self.fixture_db.find_fixture_definition(
+                &file_path,
+                Self::internal_line_to_lsp(usage.line),
+                usage.start_char as u32,
+            );
+            if let Some(return_type) = definition.as_ref().and_then(|d| d.return_type.as_deref()) {
                 // Check if this parameter already has a type annotation
                 // by looking at the text after the parameter name in the current buffer
                 if parameter_has_annotation(&lines, usage.line, usage.end_char) {
